@@ -101,6 +101,10 @@ def check(ctx, run):
     run.rule("R3", "framing: on every path of every writer the emitted text is a sequence of complete ##teamcity[name attr='value' ...]\\n messages; finish uses what start stored; testIgnored iff !willRun()", floor=10)
     run.rule("R5", "late failures: a failure first discovered in a plugin's post action (the mock plugin's end-of-test check; the leak plugin's is C07.R1) is built for the test that is being finished, so its testFailed message names the open test", floor=1)
     late_failure_rule(prog, run, "R5")
+    # a failure is built for "the current test": during a test's run that is the test itself, afterwards the one that was current
+    # before (a test that runs a nested test goes on failing under its own name): the runner folded (shared with C01.R5)
+    from .C01 import bracketing_rule
+    bracketing_rule(prog, run, "R5")
     run.rule("R4", "pairing: TestResult forwards each start/end callback exactly once; the registry brackets runOneTest with started/ended on the same path", floor=6)
 
     writers = []
